@@ -23,7 +23,7 @@ class P(vlib.Prop):
     ]
     rule = ("retry: generated scenarios = (back-off configuration, per-attempt timeout, signal, payload ids, caller deadline, "
             "cancel instant, shutdown instant, script of backend outcomes {success, transient, permanent, throttle d, partial "
-            "failure with remainder (own or foreign signal), shutdown-classified, fmt-wrapped, nested combinations}) run on the REAL "
+            "failure with remainder (own or foreign signal), shutdown-classified, fmt-wrapped, chains of these, and COMBINED errors (errors.Join / fmt.Errorf with several %w / multierr.Combine) with such members at any position, nested}) run on the REAL "
             "chain obsReport -> retrySender -> timeoutSender -> exporter function built by internal.NewBaseExporter with real "
             "logs/traces/metrics requests.  Family 1: randomization_factor 0, deterministic; every inequality the code evaluates is "
             ">= 60 ms away from equality (margin_ms) and every wait >= 15 ms (S4 exclusion); compared exactly with the model: "
@@ -44,7 +44,7 @@ class P(vlib.Prop):
     ]
     assumptions = [
         "float64 arithmetic of backoff/v5 is modelled by exact rational arithmetic (generated multipliers / factors are dyadic or small rationals for which both agree on nanosecond integers)",
-        "errors are linear wrapper chains (errors.As finds the first layer of the target type); multi-errors (errors.Join) are not modelled",
+        "errors are trees of single wrappers and combinations (errors.Join, several %w, multierr); errors.As = first node of the target type in depth-first pre-order; error types with their own As/Is methods are not modelled",
         "a select whose branches are ready at the same instant is resolved by an oracle order; the theorem about cancellation assumes distinct instants (shutdown no longer does); the correspondence keeps instants >= 60 ms apart and waits >= 15 ms (family 1) / >= 8 ms (family 2); a timer/stop tie (initial_interval 0 racing stopCh, formerly S4) is exercised by family 3 and is deterministic since the post-timer re-check of stopCh",
         "time spent by retrySender between the return of an attempt and time.Now() is negligible (harness: bounded by the 60 ms margin; runs with timer jitter > 25 ms are repeated)",
     ]
